@@ -359,34 +359,59 @@ func checkAESPadConvention(c *Ctx, r *Report) {
 		return
 	}
 	r.Fn(c.FnName(ser))
-	okFill, okLast := false, false
-	allInstrs(ser, false, func(in ssa.Instruction) {
-		st, ok := in.(*ssa.Store)
-		if !ok {
-			return
+	// decided on the generalised loop events of engine E2: on every success path the appended
+	// trailer has length n+1, bytes 0..n−1 are written by a loop as index+1, byte n is n
+	evs, why := extractEvents(c, ser, nil)
+	ok, nOK, whyNot := true, 0, why
+	for _, le := range evs {
+		if !le.OK {
+			continue
 		}
-		ia, ok := st.Addr.(*ssa.IndexAddr)
-		if !ok {
-			return
-		}
-		// trailer[i] = uint8(i+1) with i an induction φ from 0
-		if cv, ok := st.Val.(*ssa.Convert); ok {
-			if bo, ok := cv.X.(*ssa.BinOp); ok && bo.Op == token.ADD {
-				if k, isK := constInt(bo.Y); isK && k == 1 && bo.X == ia.Index {
-					if ph, ok := ia.Index.(*ssa.Phi); ok {
-						for _, e := range ph.Edges {
-							if k0, ok := constInt(e); ok && k0 == 0 {
-								okFill = true
-							}
-						}
-					}
-				}
-			}
-			// trailer[padLength] = uint8(padLength)
-			if cv.X == ia.Index {
-				okLast = true
+		nOK++
+		var n *Lin
+		for _, ev := range le.eventsOf("wire", "app") {
+			if ev.Idx != nil && ev.V != nil && linEq(*ev.Idx, *ev.V) {
+				x := *ev.Idx
+				n = &x
 			}
 		}
-	})
-	r.Check(okFill && okLast, c.FnName(ser)+"|pad bytes", ser.Pos(), "trailer[i]=i+1, trailer[n]=n", "the AES trailer is not 1,2,…,n followed by n")
+		if n == nil {
+			ok, whyNot = false, "no trailer byte n holding n (the pad length byte)"
+			continue
+		}
+		if l, has := le.lenOfBuf("app"); !has || !linEq(l, n.addConst(1)) {
+			ok, whyNot = false, "the appended trailer is not n+1 bytes long"
+			continue
+		}
+		filled := false
+		lastWhy := "no loop writes the pad bytes"
+		for _, ev := range le.eventsOf("loop:wire", "app") {
+			run, w := runOf(ev)
+			if w != "" {
+				lastWhy = w
+				continue
+			}
+			if !linEq(run.Idx0, linConst(0)) || !linEq(run.V0, linConst(1)) || run.VAdv != 1 {
+				lastWhy = "pad bytes do not start at index 0 with value 1 and step 1"
+				continue
+			}
+			if len(ev.Loop.Guard) != 1 {
+				lastWhy = "the pad byte store is conditional within the loop"
+				continue
+			}
+			if cov, w := run.coversUpTo(*n, le.Cons); !cov {
+				lastWhy = w
+				continue
+			}
+			filled = true
+		}
+		if !filled {
+			ok, whyNot = false, lastWhy
+		}
+	}
+	if nOK == 0 {
+		r.Unk(c.FnName(ser)+"|pad bytes", ser.Pos(), "no success path extracted: "+why)
+		return
+	}
+	r.Check(ok, c.FnName(ser)+"|pad bytes", ser.Pos(), "trailer[i]=i+1 for i<n, trailer[n]=n, length n+1", "the AES trailer is not 1,2,…,n followed by n: "+whyNot)
 }
